@@ -10,7 +10,7 @@
    Aggregates are exact rationals (float rounding is outside the model). *)
 From Coq Require Import ZArith QArith List Bool.
 From SH Require Import Common.Wrap Gen.TagValueUnicode TagValue.Model Gen.IngestConsts
-  Ingest.Model Ingest.Spec Ingest.Proofs Ingest.ProofsApply Ingest.ProofsProps.
+  Ingest.Model Ingest.Spec Ingest.Proofs Ingest.ProofsApply Ingest.ProofsOk Ingest.ProofsProps.
 Import ListNotations.
 Open Scope Z_scope.
 
@@ -70,6 +70,15 @@ Theorem C12_accepted_records :
   /\ forall r, In r (handle fixed fixb c cur m rt e) -> r_metric r <> m_id m ->
        r_metric r = metric_ingestion_status /\ (r_count r == 1)%Q /\ In (fst (r_key r 2)) accept_codes.
 Proof. exact accepted_records. Qed.
+
+(* ... and the primary shard holds exactly one OK record for the event (the secondary shard is a different shard: C10) *)
+Theorem C12_accepted_exactly_one_ok_record :
+  forall fixed fixb c cur m rt e,
+  rt_sh1ok rt = true -> 0 <= cur -> 0 < m_id m ->
+  h_status (header_of fixed c m e) = 0 ->
+  (forall s, rt_sh2 rt = Some s -> s <> rt_sh1 rt) ->
+  length (filter (is_ok_record (rt_sh1 rt)) (handle fixed fixb c cur m rt e)) = 1%nat.
+Proof. exact accepted_exactly_one_ok. Qed.
 
 (* "For accepted events, an absent counter means one event per value (or the histogram weight)" — also one per unique.
    Stated for both variants; for the code as it is ([fixed] = false) the hypothesis [~ zero_weight_only e] is NOT a
